@@ -37,6 +37,28 @@ FILTERS = [
     ('${%is_compressed} or ${%2.section_length} is not None', lambda m: m['compressed'] or m['sec2']),
 ]
 
+# the SHAPE of the filter expression: where in the expression the embedded metadata queries sit (nested scopes of the
+# expression included), operators, whitespace inside ${ }, the same query used twice, names of several sections
+FILTER_SHAPES = [
+    ('any(${%data_category} == c for c in (2, 7))', lambda m: m['data_category'] in (2, 7)),
+    ('(lambda: ${%n_subsets} > 1)()', lambda m: m['n_subsets'] > 1),
+    ('[e for e in (3,) if e == ${%edition}]', lambda m: m['edition'] == 3),
+    ('all(x >= 0 for x in (${%n_subsets}, ${%data_category})) and ${%edition} != 2', lambda m: m['edition'] != 2),
+    ('len([d for d in ${%unexpanded_descriptors} if d // 1000 == 1 + 0 * ${%n_subsets}]) > 0',
+     lambda m: any(d // 1000 == 1 for d in m['descs'])),
+    ('sorted(${%unexpanded_descriptors}, key=lambda d: abs(d - ${%edition}))[0] == 1001', lambda m: min(m['descs']) == 1001 and 1001 in m['descs']),
+    ('${ %edition } in (2, 3)', lambda m: m['edition'] in (2, 3)),
+    ('not ${%is_compressed}', lambda m: not m['compressed']),
+    ('${%n_subsets} * ${%n_subsets} == 4', lambda m: m['n_subsets'] == 2),
+    ('(${%edition} == 4) if ${%n_subsets} else False', lambda m: m['edition'] == 4 and m['n_subsets'] > 0),
+    ('${%3.section_length} == 7 + 2 * len(${%unexpanded_descriptors})', lambda m: m['edition'] == 4),
+    ('${%0.edition} + ${%1.data_category} > 5', lambda m: m['edition'] + m['data_category'] > 5),
+    ('True', lambda m: True),
+    ('False', lambda m: False),
+    ('0', lambda m: False),
+    ('"${%edition}" != ""', lambda m: True),
+]
+
 _POOL = None
 
 
@@ -83,7 +105,7 @@ def pool():
         if name.endswith('in-data'):
             assert b'BUFR' in b[8:-4] and b'7777' in b[8:-4], name
         out.append((name, b, {'edition': ed, 'data_category': cat, 'n_subsets': nsub, 'compressed': comp,
-                              'sec2': s2 is not None, 'nvalues': [len(s.values) for s in subs]}))
+                              'sec2': s2 is not None, 'nvalues': [len(s.values) for s in subs], 'descs': list(descs)}))
     _POOL = out
     return out
 
@@ -113,12 +135,14 @@ def scan(stream, info_only, filter_expr):
         return out
 
 
-def judge_stream(msgs, seps, p, case_of):
+def judge_stream(msgs, seps, p, case_of, FILTERS=None):
     """msgs: indexes into the pool; seps: len(msgs)+1 separator indexes"""
     P = pool()
     stream = SEPARATORS[seps[0]]
     for k, mi in enumerate(msgs):
         stream += P[mi][1] + SEPARATORS[seps[k + 1]]
+    if FILTERS is None:
+        FILTERS = globals()['FILTERS']
     for info_only in (False, True):
         for fi, (expr, pred) in enumerate(FILTERS):
             p.n['exec'] += 1
@@ -212,6 +236,19 @@ def run_product(args):
     return p
 
 
+def run_shapes(tuples):
+    """every filter-expression shape over streams of one and two messages (separators: none / a GTS heading)"""
+    p = Partial()
+    for msgs in tuples:
+        for sep in (0, 1):
+            seps = [sep] * (len(msgs) + 1)
+            judge_stream(msgs, seps, p, lambda io, fi, msgs=msgs, seps=seps: {'msgs': list(msgs), 'seps': list(seps), 'info_only': io,
+                                                                             'filter': fi, 'shapes': True}, FILTER_SHAPES)
+            p.n['nodes'] += 1
+    p.n['edges'] = p.n['nodes']
+    return p
+
+
 def run_tree(args):
     """message tuples with separators as D-choices (default empty), deviation bound"""
     tuples, bound = args
@@ -287,8 +324,12 @@ def replay(part, case):
     if part == 'cli':
         p = run_cli([(case['msgs'], case['seps'])])
     else:
-        judge_stream(case['msgs'], case['seps'], p, lambda io, fi: {'msgs': case['msgs'], 'seps': case['seps'],
-                                                                  'info_only': io, 'filter': fi})
+        if case.get('shapes'):
+            judge_stream(case['msgs'], case['seps'], p, lambda io, fi: {'msgs': case['msgs'], 'seps': case['seps'],
+                                                                      'info_only': io, 'filter': fi, 'shapes': True}, FILTER_SHAPES)
+        else:
+            judge_stream(case['msgs'], case['seps'], p, lambda io, fi: {'msgs': case['msgs'], 'seps': case['seps'],
+                                                                      'info_only': io, 'filter': fi})
         p.viol = [v for v in p.viol if v['case'].get('info_only') == case.get('info_only') and v['case'].get('filter') == case.get('filter')]
     return [{'sig': v['sig'], 'detail': v['detail']} for v in p.viol]
 
@@ -315,6 +356,12 @@ def main(tier, seed):
         p = merge_all(run_shards(run_tree, [(s, bound) for s in split(tuples, 64)]))
         rep.add_part('tree-j%d-d%d' % (j, bound), p, bounds={'messages_in_stream': j, 'deviations': bound,
                                                              'message_tuples': len(tuples)})
+    tuples = [(m,) for m in idx] + list(itertools.product(idx, repeat=2)) + ([] if tier == 'quick' else list(itertools.product(idx, repeat=3)))
+    p = merge_all(run_shards(run_shapes, split(tuples, 64)))
+    rep.add_part('filter-shapes', p, bounds={'expressions': [e for e, _ in FILTER_SHAPES], 'message_tuples': len(tuples),
+                                             'separators': 2, 'modes': 2},
+                 rule='one execution = one scan with one filter expression; the expressions vary WHERE the embedded metadata queries '
+                      'sit (generator expression, lambda, comprehension, conditional, call argument, string literal)')
     Ls = length_values(tier)
     p = merge_all(run_shards(run_lengths, split(Ls, 64)))
     rep.add_part('length-bytes', p, bounds={'lengths': len(Ls), 'low_octet': 'every value 0..255',
